@@ -245,6 +245,16 @@ def run(prop_id, tier, seed, replay=None):
     broken += problems + ["lint:" + l for l in lint]
     obligations = n_thm_all
     discharged = n_ok if not lint else 0
+    # thorough tier: the compiled proofs are replayed by Lean's independent re-checker
+    recheck = None
+    if tier == "thorough" and healthy:
+        try:
+            rc_, out_, dt_ = lean._run(["lake", "env", "leanchecker"] + healthy, timeout=3000)
+            recheck = dict(cmd="lake env leanchecker " + " ".join(healthy), exit=rc_, seconds=round(dt_, 1))
+            if rc_ != 0:
+                broken.append("leanchecker: re-check of %s failed: %s" % (",".join(healthy), out_.strip()[-300:]))
+        except Exception as ex:  # a timeout of the re-checker is not a verdict about the proofs
+            recheck = dict(cmd="lake env leanchecker", error=repr(ex))
 
     # ---- 2. correspondence -------------------------------------------
     corr_err = None
@@ -367,6 +377,7 @@ def run(prop_id, tier, seed, replay=None):
             rule="correspondence: seeded structured generator (see harness/props/%s.py), a case is non-trivial if it reached a non-error branch; distinct = distinct (op, model output). search: implementation-only oracle cases, distinct by (oracle kind, input signature)" % prop_id.lower(),
             samples=samples,
             not_proved=list(getattr(mod, "NOT_PROVED", [])),
+            leanchecker=recheck,
             known_findings_hit=sorted(known_hit),
             notes=ctx.notes,
         ),
